@@ -6,6 +6,7 @@ package main
 // client would. The same SOp history can therefore be replayed under different configurations.
 
 import (
+	"encoding/binary"
 	"fmt"
 	"math/rand"
 	"path"
@@ -48,6 +49,9 @@ type World struct {
 	handles map[string]uint64 // what the client knows: path -> handle
 	inoAt   map[string]uint64 // identity of the object each known handle was obtained for
 	keepStale bool            // keep using handles whose object was replaced (default: re-LOOKUP like a client after ESTALE)
+	trace     []string        // the run as driver lines for the Lean server model ("srv ...")
+	traceWant []string        // what the model must answer to each line
+	noTrace   bool
 	step    time.Duration     // virtual time that passes before each request
 }
 
@@ -63,24 +67,89 @@ func newWorldOn(fs *RefFS, cfg SrvCfg) *World {
 		absnfs.VerifSetMaxHandles(s.NFS, cfg.MaxHandles)
 	}
 	w.srv = s
-	h, st := s.Mount("/")
-	if st != 0 {
+	w.traceConfig()
+	rep := w.callRaw(progMount, 3, 1, rootCred(), xdrOpaque([]byte("/")))
+	if rep.Err != nil || len(rep.Data) < 16 || binary.BigEndian.Uint32(rep.Data) != 0 {
 		panic("mount failed")
 	}
+	h := binary.BigEndian.Uint64(rep.Data[8:16])
 	w.root = h
 	w.learn("/", h)
 	fs.TakeLog()
+	fs.TakePaths()
 	return w
+}
+
+// traceConfig emits the "srv new" line from the options the server actually runs with, and the seed lines
+// from the backend's current tree.
+func (w *World) traceConfig() {
+	o := w.srv.NFS.GetExportOptions()
+	b := func(x bool) int {
+		if x {
+			return 1
+		}
+		return 0
+	}
+	verf := absnfs.VerifWriteVerf(w.srv.S)
+	w.tr(fmt.Sprintf("srv new %d %d %d %s %d %d %d %d %d %d %d %d %d %s", o.TransferSize, b(o.ReadOnly), o.MaxFileSize, hx([]byte(o.Squash)),
+		int64(o.AttrCacheTimeout), o.AttrCacheSize, b(o.CacheNegativeLookups), int64(o.NegativeCacheTimeout), b(o.EnableDirCache),
+		int64(o.DirCacheTimeout), o.DirCacheMaxEntries, o.DirCacheMaxDirSize, w.cfg.MaxHandles, hx(verf[:])), "ok")
+	for _, ent := range strings.Split(w.fs.TreeSig(), ";") {
+		parts := strings.SplitN(ent, ":", 3)
+		if len(parts) < 2 || parts[1] == "/" {
+			continue
+		}
+		switch parts[0] {
+		case "d":
+			w.tr("srv seed mkdir "+hx([]byte(parts[1])), "ok")
+		case "f":
+			w.tr("srv seed file "+hx([]byte(parts[1]))+" "+hx(unhx(parts[2])), "ok")
+		case "l":
+			w.tr("srv seed link "+hx([]byte(parts[1]))+" "+hx([]byte(parts[2])), "ok")
+		}
+	}
+}
+
+func (w *World) tr(line, want string) {
+	if w.noTrace {
+		return
+	}
+	w.trace = append(w.trace, line)
+	w.traceWant = append(w.traceWant, want)
+}
+
+// traceDump asks the model for its backend tree and expects the real one.
+func (w *World) traceDump() { w.tr("srv dump", w.fs.Dump(true)) }
+
+// callRaw sends one call at the current virtual time and records it for the model.
+func (w *World) callRaw(prog, vers, proc uint32, cred Cred, args []byte) Reply {
+	absnfs.VerifSetClock(w.clockNs)
+	r := w.srv.Call(prog, vers, proc, cred, args)
+	if r.Err == nil && r.Status == 0 && cred.Raw == nil && (cred.Flavor == 1 || cred.Flavor == 0) {
+		aux := "-"
+		if len(cred.Aux) > 0 {
+			var l []string
+			for _, g := range cred.Aux {
+				l = append(l, fmt.Sprint(g))
+			}
+			aux = strings.Join(l, ",")
+		}
+		w.tr(fmt.Sprintf("srv call %d %d %d %d %s %d %d %d %s %d %s", w.clockNs, cred.Flavor, cred.UID, cred.GID, aux, prog, vers, proc, hx(args), r.AcceptStatus, hx(r.Data)), "match")
+	} else if r.Err != nil || r.Status != 0 {
+		// no model line: a timeout or an authentication denial; neither changes the server state
+	} else {
+		w.noTrace = true // a call the model cannot follow (raw credential): stop tracing this world
+	}
+	return r
 }
 
 func newWorld(cfg SrvCfg) *World { return newWorldOn(NewRefFS(), cfg) }
 
-func (w *World) Close() { w.srv.Close(); absnfs.VerifClockOff() }
+func (w *World) Close() { w.flushTrace(); w.srv.Close(); absnfs.VerifClockOff() }
 
 func (w *World) nfs(proc uint32, cred Cred, args []byte) (Reply, NfsRes) {
 	w.clockNs += int64(w.step)
-	absnfs.VerifSetClock(w.clockNs)
-	r := w.srv.NFSCall(proc, cred, args)
+	r := w.callRaw(progNFS, 3, proc, cred, args)
 	if r.Err != nil || r.Status != 0 || r.AcceptStatus != 0 {
 		return r, NfsRes{Status: 0xffffffff, Bad: true}
 	}
